@@ -310,17 +310,26 @@ def accumulate (acc : Dict Val) (field : String) (v : Val) (share : Rat) : Excep
     let s ← Val.addF (.flt 0) x
     pure (acc ++ [(field, s)])
 
+/-- `py_share = accident_quarter_py_shares[cell.period]`, then `py_share[policy_period]` if present -/
+def shareOf (shares : List ((Date × Date) × List ((Date × Date) × Rat))) (py : Date × Date)
+    (c : Cell) : Option Rat :=
+  let pyShare := ((shares.find? (·.1 == (c.ps, c.pe))).map (·.2)).getD []
+  (pyShare.find? (·.1 == py)).map (·.2)
+
+/-- body of `for cell in aq_cells`: every field of the cell is added with the cell's share -/
+def stepCell (shares : List ((Date × Date) × List ((Date × Date) × Rat))) (py : Date × Date)
+    (acc : Dict Val) (c : Cell) : Except Err (Dict Val) :=
+  match shareOf shares py c with
+  | some share => c.values.foldlM (fun a kv => accumulate a kv.1 kv.2 share) acc
+  | none => pure acc
+
 /-- the cell of one policy period at one evaluation date (if any field was accumulated) -/
 def policyCell (sl : List Cell) (shares : List ((Date × Date) × List ((Date × Date) × Rat)))
     (py : Date × Date) (ev : Date) : Except Err (Option Cell) := do
   -- `slice[:, evaluation_date, :]` = `filter(...)` then `clip(min_eval=ev, max_eval=ev)`
   let all ← Triangle.ofCells sl
   let aqCells ← Triangle.clip all { minEval := some ev, maxEval := some ev }
-  let vals ← aqCells.foldlM (fun (acc : Dict Val) c =>
-    let pyShare := ((shares.find? (·.1 == (c.ps, c.pe))).map (·.2)).getD []
-    match pyShare.find? (·.1 == py) with
-    | some (_, share) => c.values.foldlM (fun a kv => accumulate a kv.1 kv.2 share) acc
-    | none => pure acc) []
+  let vals ← aqCells.foldlM (stepCell shares py) []
   if vals.isEmpty then pure none
   else match aqCells.getLast? with
     | some last =>
